@@ -4,6 +4,7 @@ use std::path::PathBuf;
 pub mod c01;
 pub mod c02;
 pub mod c03;
+pub mod c05;
 pub mod c08;
 pub mod c12;
 
@@ -12,6 +13,7 @@ pub fn dispatch(id: &str, tier: Tier, seed: u64, replay: Option<PathBuf>) -> i32
         "C01" => run(&c01::C01, tier, seed, replay),
         "C02" => run(&c02::C02, tier, seed, replay),
         "C03" => run(&c03::C03, tier, seed, replay),
+        "C05" => run(&c05::C05, tier, seed, replay),
         "C08" => run(&c08::C08, tier, seed, replay),
         "C12" => run(&c12::C12, tier, seed, replay),
         _ => {
